@@ -9,6 +9,14 @@ TRUST = ("Trusted: the VC generator govc (SSA->SMT translation, memory model, lo
          "(strconv, strings, fmt, log, encoding/binary, ...). The PEG parsers (pigeon) and the asmdb JSON table are outside every contract.")
 
 claimed = {
+ "C08": dict(
+   text="Deductive proof, with loop invariants for symbol lists of any length, over the real COFF symbol-table builder (generateSymbolEntries) and name encoder (convertNameToBytes): the table starts with the .file symbol and the three section symbols with exactly the PE/COFF field values and auxiliary-record contents (section length, zero relocation/line counts), every record announces exactly as many auxiliary records as follow it (so the record count is well defined), every user symbol is an external symbol of section 0 or 1, the number of entries is 4 + GLOBAL names + EXTERN names; a name of at most 8 bytes is stored inline NUL-padded, a longer one as four zero bytes plus an offset that - counted from the size field - lies inside the string table and points at that name followed by NUL, equal names share one offset (de-duplication map invariant proved as a data-structure invariant over all keys).",
+   note=TRUST + " PARTIAL: the file-level layout written by CoffFormat.Write (header counts and offsets, section table, placement of .text, the string-table size field) is not under contract yet, so 'an independent reader parses the file' is not decided; struc.PackWithOptions and sort.SliceStable are library code (the latter modelled: permutation + ordered by the comparator). At most 65536 names of at most 4096 bytes are assumed (A14).",
+   design="DESIGN.md section 4, C08/C09"),
+ "C09": dict(
+   text="Deductive proof over the real generateSymbolEntries/convertNameToBytes: after the stable sort, user symbols are ordered with undefined ones last and defined ones by value (for every comparator result, through a contract-level model of sort.SliceStable); the element that ends at position a came from declaration position p(a) (ghost permutation) and carries that name (inline if short), section 1 and the label's symbol-table value if the name is defined, section 0 and value 0 otherwise; long names are recoverable through the string table (convertNameToBytes contract: offset points at the name, the table only grows, remembered offsets stay valid); the [FILE] name is in the .file auxiliary record. frontend.Exec hands the same machine code to either writer (format clause).",
+   note=TRUST + " PARTIAL: '.text equals the flat binary' needs CoffFormat.Write (not under contract yet); 'exactly once' needs duplicate-free GLOBAL lists (pass 1, behind the trusted TraverseAST contract). Known finding: a [FILE] name longer than 18 bytes is cut off.",
+   design="DESIGN.md section 4, C08/C09"),
  "C04": dict(
    text="Deductive proof over the real handleJcc/handleCALL/getOffsetSize: for every target, position, mode and all 31 jump kinds, the emitted bytes are exactly one branch instruction of the named class/condition (independent SDM decoder) whose sign-extended displacement equals target-(address+length) as integers, so a displacement that does not fit is never silently wrapped. Eleven input regions where the current tree violates this (rel8 lower boundary, rel16/rel32 forms without 66h, off-by-one length, truncation beyond 2^31) are recorded as known findings, excluded, and re-confirmed on every run.",
    note=TRUST + " The jump target string is what pass 2 substituted (text hop, A5); strconv.ParseInt is an assumed library contract. Routing of ocode kinds to the handlers and the pass-1 size side are covered under C01/C03 when claimed.",
